@@ -4,15 +4,29 @@ Real handleNewTCPConn on scripted connections that record every Write / Close / 
 instant of every Read; all probes of a batch run concurrently because each one lasts as long as the
 handler's randomised 5-10 s deadline.  Direct oracle with the tolerances of DESIGN.md section 8,
 then the handler model and its clocked runner (coq/C04, coq/C03) are evaluated on the same probes."""
+import copy
 import os
 import sys
+import threading
 import time
 
-from lib import gN, gbool, glist, lcg_bytes
+from lib import gN, gZ, gbool, glist, lcg_bytes
 from props import c04
 
 FILES = {"zz_verif_common_test.go": "c04/common_driver_test.go",
-         "zz_verif_c03_test.go": "c03/c03_driver_test.go"}
+         "zz_verif_c03_test.go": "c03/c03_driver_test.go",
+         "zz_verif_c03h_test.go": "c03/c03_hist_driver_test.go"}
+
+# the peer-address dimension: what the accepted socket reports as its remote address.  (form, ip):
+# form tcp = *net.TCPAddr holding a 16-byte net.IP (what a dual-stack listener yields; an IPv4 peer is
+# then ::ffff:a.b.c.d), tcp4 = 4-byte net.IP, udp = *net.UDPAddr, str = any other net.Addr whose String()
+# is host:port.  "" = the drivers' historical default 198.51.100.7 (16-byte form).
+PEERS = [("", ""), ("tcp", "V6"), ("tcp4", "198.51.100.9"), ("tcp", "fd00::9:1"), ("udp", "V6"), ("tcp", "::ffff:203.0.113.5"),
+         ("str", "V6"), ("tcp", "::1"), ("str", "192.0.2.44"), ("tcp", "V6"), ("udp", "203.0.113.77")]
+
+
+def peer_is_v6(ip):
+    return ":" in ip and not ip.startswith("::ffff:")
 
 REGS = {
     "none": [],
@@ -69,12 +83,23 @@ def gen_cases(ctx, table, scale):
                 out.append([t, k])
         return out
 
+    perkind = {}
+
+    def peer_for(kind):
+        k = perkind.get(kind, 0)
+        perkind[kind] = k + 1
+        form, ip = PEERS[k % len(PEERS)]
+        if ip == "V6":   # a random global IPv6 source address
+            ip = "2001:db8:%x:%x::%x" % (rng.randrange(1, 0xffff), rng.randrange(0, 0xffff), rng.randrange(1, 0xffff))
+        return form, ip
+
     def mk(kind, parts, regs=None, ch=None, hint=100, fin_ms=0, fin_rst=False):
         if regs is None:
             regs = regnames[ri[0] % len(regnames)]
             ri[0] += 1
+        form, ip = peer_for(kind)
         cases.append({"kind": kind, "parts": parts, "chunks": ch if ch is not None else chunks(hint), "regs": REGS[regs],
-                      "regs_name": regs, "fin_ms": fin_ms, "fin_rst": fin_rst})
+                      "regs_name": regs, "fin_ms": fin_ms, "fin_rst": fin_rst, "peer": ip, "peer_form": form})
 
     if ctx.replay:
         # --replay: exactly the recorded failing probes (their original specification)
@@ -86,7 +111,8 @@ def gen_cases(ctx, table, scale):
             c = (b.get("case") or {}).get("case")
             if c and "parts" in c:
                 cases.append(c)
-        if cases:
+        if cases or any((f.get("case") or {}).get("hist") for f in ctx.replay.get("failures", []) + ctx.replay.get("theorem_or_correspondence", [])
+                        + ctx.replay.get("broken", [])):
             return cases
     for _ in range(scale):
         # random streams at and around every threshold, against every kind of registry
@@ -174,6 +200,16 @@ def gen_cases(ctx, table, scale):
         mk("validtag-wrongprefix", [flight("prefix", 9, as_prefix=0)], regs="many", ch=[[10, -1]])
         mk("validtag-wrongtransport", [flight("prefix", 3, no_reg=True, tag_of="min"), {"gen": [8, 20]}], ch=[[10, 40], [600, -1], [2000, 0]])
         mk("validtag-obfs4-badmac", [flight("obfs4", flip_end=3)], ch=[[10, 100], [500, -1]], regs="one-min")
+        # the socket reports a remote address that is not an IP address at all (a pipe in a unit test): the
+        # handler's documented immediate exit - outside the property (no IP peer), kept in the correspondence
+        for regs in ("none", "one-min"):
+            mk("nonip", [{"gen": [rng.randrange(1, 1 << 30), 60]}], regs=regs, ch=[[20, -1]])
+            cases[-1]["peer"], cases[-1]["peer_form"] = "-", "str"
+    # every class meets an IPv6 peer: a class with a single probe gets a second one (the next peer form)
+    for kind in [k for k, n in perkind.items() if n == 1 and k != "nonip"]:
+        c = copy.deepcopy([x for x in cases if x["kind"] == kind][0])
+        c["peer_form"], c["peer"] = peer_for(kind)
+        cases.append(c)
     return cases
 
 
@@ -210,7 +246,9 @@ def judge(ctx, c, r, Ds):
     """the property's own statement on the observables of one probe (not for probes that carry a valid tag)"""
     kind, regs = c["kind"], c.get("regs_name", "?")
     key = "%s/%s" % (kind, regs)
-    brief = {"kind": kind, "regs": regs, "case": c, "parts": r.get("parts"), "script": r.get("script"),
+    if peer_is_v6(c.get("peer") or ""):
+        key += "@peer-v6"
+    brief = {"kind": kind, "regs": regs, "peer": r.get("remote"), "phantom_v6": r.get("v6"), "case": c, "parts": r.get("parts"), "script": r.get("script"),
              "observed": {k: r.get(k) for k in ("set_deadline", "writes", "closes", "returned", "max_lag", "unread", "panic")}}
     brief["observed"]["reads"] = (r.get("reads") or [])[-6:]
     brief["observed"]["calls"] = (r.get("calls") or [])[-6:]
@@ -219,7 +257,8 @@ def judge(ctx, c, r, Ds):
         return
     sd = [x for x in (r.get("set_deadline") or []) if x[1] > 0]
     if not sd:
-        ctx.fail(key + ":no-deadline", "handler set no classification deadline", brief)
+        ctx.fail(key + ":no-deadline", "handler set no classification deadline and returned (its caller closes the connection) after %.0f ms; "
+                 "peer address %s" % (r.get("returned", -1), r.get("remote")), brief)
         return
     D = sd[0][0] + sd[0][1]
     Ds.append(sd[0][1])
@@ -285,14 +324,282 @@ def probe_term(r, c=None):
     fin = "None"
     if c and c.get("fin_ms"):
         fin = "(Some (%s, %s))" % (gN(c["fin_ms"]), gN(1 if c.get("fin_rst") else 0))
-    return "(Build_probe_case %s %s %s %s %s %s %s %s)" % (
+    q = "(Build_probe_case %s %s %s %s %s %s %s %s)" % (
         conn, glist(r.get("script") or [], lambda x: "(%s, %s)" % (gN(x[0]), gN(x[1]))), gN(D), gN(sum(reads)), gbool(quiet), gbool(slept),
         fin, gbool(last in ("eof", "rst")))
+    at_once = not sd and not allreads and r.get("returned", -1) >= 0
+    return "(%s, Build_probe_addr %s %s %s)" % (q, raddr_term((c or {}).get("peer_form"), r.get("remote_len", 16), r.get("remote_ip") or ""),
+                                             gbytes(bytes.fromhex(r.get("phantom") or "")), gbool(at_once))
+
+
+def gbytes(b):
+    return "[%s]%%N" % "; ".join(str(x) for x in b) if b else "(@nil N)"
+
+
+def raddr_term(form, iplen, iphex):
+    ip = bytes.fromhex(iphex)
+    if form == "str":
+        return "(ROther %s)" % ("(Some %s)" % gbytes(ip) if ip else "None")
+    return "(%s %s)" % ("RUdp" if form == "udp" else "RTcp", gbytes(ip))
 
 
 def header(table):
-    return ("From CJ Require Import Common.Base C04.Model C04.Run C03.Model C03.Run.\n"
-            "Definition tbl : list pfx :=\n %s.\nDefinition chk' := chk3 tbl.\n" % c04.table_term(table))
+    return ("From CJ Require Import Common.Base C04.Model C04.Run C03.Model C03.StatsModel C03.ConnModel C03.Run.\n"
+            "Definition tbl : list pfx :=\n %s.\nDefinition chk' := chk3a tbl.\n" % c04.table_term(table))
+
+
+# ---------------------------------------------------------------------------------------------------
+# history lane: several connections + statistics epochs on real loopback sockets
+
+HREGS = {"regs": [{"transport": "min", "valid": True}], "noregs": [],
+         "many": [{"transport": "min", "valid": True}, {"transport": "obfs4", "valid": True}, {"transport": "prefix", "prefix_id": 1, "valid": True}]}
+
+# connection kinds: (registrations on the phantom, bytes sent, how it ends)
+HKINDS = {
+    "silent-timeout": ("regs", 0, None), "silent-fin": ("regs", 0, "fin"), "silent-rst": ("regs", 0, "rst"),
+    "data-timeout": ("regs", 60, None), "data-fin": ("many", 90, "fin"), "data-rst": ("regs", 60, "rst"),
+    "noregs-timeout": ("noregs", 0, None), "noregs-fin": ("noregs", 0, "fin"), "noregs-rst": ("noregs", 40, "rst"),
+    "noregs-data-timeout": ("noregs", 300, None),
+    "exhaust-timeout": ("regs", 9000, None), "exhaust-fin": ("many", 9000, "fin"), "exhaust-rst": ("regs", 8500, "rst"),
+    "match": ("noregs", -1, None),
+}
+
+
+def gen_hists(ctx, scale):
+    rng = ctx.rng
+    if ctx.replay:
+        hs = []
+        for f in ctx.replay.get("failures", []) + ctx.replay.get("theorem_or_correspondence", []) + ctx.replay.get("broken", []):
+            h = (f.get("case") or {}).get("hist")
+            if h and "conns" in h and h not in hs:
+                hs.append(h)
+        return hs
+    hists = []
+    srcn = [0]
+    geos = [("DE", 64501), ("FR", 64502), ("US", 64500), ("", 64503), ("unk", 64504), ("BR", 64501)]
+
+    def conn(kind, at, geo=None, phantom=None, peer=None, t_end=None, first=150):
+        regs, n, end = HKINDS[kind]
+        srcn[0] += 1
+        k = srcn[0]
+        c = {"kind": kind, "at_ms": at, "regs": HREGS[regs], "parts": [], "chunks": [], "fin_ms": 0, "fin_rst": False,
+             "phantom": phantom or ("v6" if k % 3 == 0 else "v4")}
+        cc, asn = geo or geos[k % len(geos)]
+        c["cc"], c["asn"] = cc, asn
+        # the peer's source address: distinct loopback addresses (127.x.y.z), the IPv6 loopback, or - reported
+        # through RemoteAddr() on top of the real socket - a global IPv6 / 4-byte IPv4 / UDP / string address
+        style = peer if peer is not None else k % 5
+        c["src"] = "127.%d.%d.%d" % (1 + (k >> 16) % 100, (k >> 8) & 255, k & 255)
+        if style == 1:
+            c["src"] = "::1"
+            c["peer"], c["peer_form"] = "2001:db8:%x::%x" % (rng.randrange(1, 0xffff), k), "tcp"   # ::1 is one address: tell the peers apart
+        elif style == 2:
+            c["peer"], c["peer_form"] = "2001:db8:%x:%x::%x" % (rng.randrange(1, 0xffff), rng.randrange(0, 0xffff), k), rng.choice(["tcp", "udp", "str"])
+        elif style == 3:
+            c["peer"], c["peer_form"] = "203.0.%d.%d" % ((k >> 8) & 255, k & 255), rng.choice(["tcp", "tcp4"])
+        elif style == 4:
+            c["src"] = "::1"   # the real thing, unmodified: every such peer is ::1 (one GeoIP entry)
+            c["cc"], c["asn"] = "AU", 64999
+        if n < 0:
+            c["parts"] = [{"flight": {"transport": "min", "prefix_id": 0, "flip": -1, "flip_end": 0, "trunc": 0, "as_prefix": -1, "valid": True,
+                                      "no_reg": False, "key": k % 3, "tag_of": ""}}]
+            c["chunks"] = [[t_end or 900, -1]]
+        elif n > 0:
+            c["parts"] = [{"gen": [rng.randrange(1, 1 << 30), n]}]
+            c["chunks"] = [[first, n // 2], [first + 150, -1]] if n < 1000 and k % 2 else [[first, -1]]
+        if end:
+            c["fin_ms"] = t_end or 900
+            c["fin_rst"] = end == "rst"
+        return c
+
+    for _ in range(scale):
+        # every way a connection can end, with a statistics epoch between its previous step and its end,
+        # next to bystanders that did nothing special (silent / garbage) on the same and on another ASN
+        across = [(k, geos[i % 3], "v4" if i % 2 == 0 else "v6") for i, k in enumerate(HKINDS)]
+        # ... and with a GeoIP database that does not know the peer's country ("" : no per-ASN entry at all; "unk": ASN 0)
+        across += [("silent-timeout", geos[3], "v4"), ("silent-fin", geos[4], "v6"), ("data-rst", geos[3], "v6"), ("noregs-fin", geos[4], "v4")]
+        for kind, geo, fam in across:
+            e1 = rng.randrange(420, 700)
+            conns = [conn(kind, 0, geo=geo, phantom=fam, t_end=rng.randrange(900, 1400)),
+                     conn("silent-timeout", rng.randrange(150, 300), geo=geo, phantom=fam),
+                     conn(rng.choice(["data-timeout", "noregs-data-timeout"]), rng.randrange(750, 1000))]
+            hists.append({"class": kind + "-across-epoch", "conns": conns, "epochs": [e1, rng.randrange(1600, 3000), rng.randrange(3200, 4600)], "hammer": False})
+        # the same ends without an epoch in between (control), all in one history
+        hists.append({"class": "no-epoch", "epochs": [], "hammer": False,
+                      "conns": [conn(k, 40 * i, t_end=rng.randrange(500, 2500)) for i, k in enumerate(HKINDS)]})
+        # random mixes: 5-8 connections, 3-6 epochs anywhere (also while connections time out)
+        for j in range(4):
+            ks = [rng.choice(list(HKINDS)) for _ in range(rng.randrange(5, 9))]
+            eps = sorted(rng.randrange(100, 4800) for _ in range(rng.randrange(3, 7)))
+            if j % 2:
+                eps += sorted(rng.randrange(5000, 10500) for _ in range(3))
+            hists.append({"class": "mix", "epochs": eps, "hammer": False,
+                          "conns": [conn(k, rng.randrange(0, 1800), t_end=rng.randrange(300, 4400), first=rng.randrange(50, 400)) for k in ks]})
+        # unsynchronised epochs every 2 ms while connections of every kind are open
+        for j in range(2):
+            ks = list(HKINDS) if j == 0 else [rng.choice(list(HKINDS)) for _ in range(8)]
+            hists.append({"class": "hammer", "epochs": [], "hammer": True,
+                          "conns": [conn(k, rng.randrange(0, 1500), t_end=rng.randrange(300, 4400)) for k in ks]})
+    return hists
+
+
+def hist_situations(h, hr):
+    """which statistics-relevant situations the recorded history contains (generator self-test): the kind of
+    every Read error, with what the connection had done before and whether an epoch went by since its
+    previous step"""
+    out = []
+    last = {}          # conn -> index of its previous event
+    nread = {}
+    epochs = [i for i, e in enumerate(hr["events"]) if e["ev"] == "epoch"]
+    for i, e in enumerate(hr["events"]):
+        c = e["conn"]
+        if e["ev"] == "open":
+            last[c], nread[c] = i, 0
+            continue
+        if e["ev"] == "epoch":
+            continue
+        after = any(last.get(c, -1) < x < i for x in epochs)
+        spec = h["conns"][c]
+        cc = "cc" if spec["cc"] else "nocc"
+        if e["ev"] == "read":
+            if nread[c] == 0:
+                out.append("sit:first-read/%s%s" % (cc, "@epoch" if after else ""))
+            nread[c] += e["n"]
+        else:
+            st = "noregs" if not spec["regs"] else ("0B" if nread[c] == 0 else ("drained" if nread[c] > 8192 else "data"))
+            out.append("sit:%s/%s/%s%s" % (e["kind"], st, cc, "@epoch" if after else ""))
+        last[c] = i
+    return out
+
+
+def judge_hist(ctx, h, hr, Ds):
+    """the property's own statement on every connection of a history that presented no valid tag"""
+    cls = h["class"]
+    bad = False
+    panics = [(i, c) for i, c in enumerate(hr["conns"]) if c.get("panic")]
+
+    def brief(i=None):
+        b = {"hist": h, "class": cls,
+             "events": [{k: v for k, v in e.items() if k in ("ev", "conn", "n", "kind", "at_ms", "quiesced") and v not in (None, "")}
+                        for e in hr["events"]][:60]}
+        if i is not None:
+            b["conn"] = i
+            b["observed"] = hr["conns"][i]
+        return b
+
+    for i, c in panics:
+        # a panic in a connection goroutine is not recovered by the station: the process dies and every
+        # connection that is open at that instant is closed before its deadline
+        t = c["start_ms"] + c["panic_at"]
+        victims = []
+        for j, v in enumerate(hr["conns"]):
+            if j == i or v.get("err"):
+                continue
+            sd = [x for x in (v.get("set_deadline") or []) if x[1] > 0]
+            end = v["start_ms"] + (sd[0][0] + sd[0][1] if sd else 0)
+            if v["start_ms"] <= t < end and not (h["conns"][j]["fin_ms"] and v["start_ms"] + h["conns"][j]["fin_ms"] <= t):
+                victims.append({"conn": j, "kind": h["conns"][j]["kind"], "ms_before_its_deadline": round(end - t)})
+        b = brief(i)
+        b["victims"] = victims
+        ctx.fail("hist/%s:handler-panic" % cls,
+                 "the handler goroutine of a connection (%s, peer %s) panicked %.0f ms into the history in %s: %s - the station process dies, "
+                 "%d other unauthenticated connection(s) of this history are closed %s ms before their deadlines"
+                 % (h["conns"][i]["kind"], c.get("remote"), t, c.get("panic_fn") or "?", c["panic"][:120], len(victims),
+                    "/".join(str(v["ms_before_its_deadline"]) for v in victims[:4])), b)
+        bad = True
+    for e in hr["events"]:
+        if e.get("epoch_panic"):
+            ctx.fail("hist/%s:epoch-panic" % cls, "connStats.PrintAndReset panicked: %s" % e["epoch_panic"][:200], brief())
+            bad = True
+    for i, (spec, c) in enumerate(zip(h["conns"], hr["conns"])):
+        if c.get("err"):
+            ctx.broken("driver", "history connection could not be set up: %s" % c["err"], {"hist": h, "conn": i})
+            continue
+        tagged = spec["kind"] == "match"
+        if tagged != bool(c.get("found")):
+            ctx.broken("generator-selftest", "history connection of kind %s %s" % (spec["kind"], "was not matched" if tagged else "was matched"),
+                       {"hist": h, "conn": i, "observed": c})
+        if tagged or c.get("panic"):
+            continue
+        key = "hist/%s/%s" % (cls, spec["kind"])
+        if peer_is_v6(c.get("remote_ip") or ""):
+            key += "@peer-v6"
+        n0 = ctx.cov["oracle_failures"]
+        sd = [x for x in (c.get("set_deadline") or []) if x[1] > 0]
+        fin = spec["fin_ms"]
+        if c["peer_got"] > 0 or c["writes"] > 0:
+            ctx.fail(key + ":write", "the peer received %d byte(s) from the station (handler wrote %d)" % (c["peer_got"], c["writes"]), brief(i))
+        if c.get("closes"):
+            ctx.fail(key + ":close", "the handler closed an unauthenticated connection itself at %.0f ms" % c["closes"][0], brief(i))
+        if not sd:
+            ctx.fail(key + ":no-deadline", "handler set no classification deadline: it returned after %.0f ms and the peer (%s) saw the "
+                     "connection closed after %.0f ms" % (c["returned"], c.get("remote"), c["peer_closed"]), brief(i))
+            bad = bad or ctx.cov["oracle_failures"] > n0
+            continue
+        D = sd[0][0] + sd[0][1]
+        Ds.append(sd[0][1])
+        if not (4999 <= sd[0][1] <= 10001):
+            ctx.fail("deadline-range", "classification deadline %.0f ms is outside [5 s, 10 s]" % sd[0][1], brief(i))
+        ret, pc = c["returned"], c["peer_closed"]
+        limit = min(D, fin) if fin else D      # the station may let go from the peer's own close on
+        if ret < 0:
+            ctx.fail(key + ":hang", "handler did not return within 15 s", brief(i))
+        elif ret < limit - 2:
+            ctx.fail(key + ":early-return", "handler returned %.0f ms before %s" % (limit - ret, "the peer closed its side" if fin and fin < D else "its %.0f ms deadline" % D), brief(i))
+        elif ret > limit + 1500 and ret > D + 1500:
+            ctx.fail(key + ":late-return", "handler returned %.0f ms after its deadline" % (ret - D), brief(i))
+        if not (fin and spec["fin_rst"]):
+            # what the peer itself saw on its socket (a peer that reset the connection sees nothing more)
+            if pc >= 0 and pc < limit - 2:
+                ctx.fail(key + ":early-close", "the peer saw the station close the connection (%s) at %.0f ms, %.0f ms before %s"
+                         % (c["peer_kind"], pc, limit - pc, "its own close" if fin and fin < D else "the deadline"), brief(i))
+            elif pc < 0 and ret >= 0:
+                ctx.fail(key + ":never-closed", "the handler returned but the peer's socket was still open %.0f ms later" % (13500 - ret), brief(i))
+        if c["read_bytes"] < c["stream_len"]:
+            ctx.fail(key + ":stopped-reading", "station read %d of the %d bytes the peer sent before the deadline" % (c["read_bytes"], c["stream_len"]), brief(i))
+        elif ret >= 0 and not fin and not (c["last_err"] == "timeout" and c["last_err_at"] >= D - 2):
+            ctx.fail(key + ":not-reading-at-deadline", "the handler was not blocked in a Read when its deadline passed (last Read result: %s at %.0f ms)"
+                     % (c["last_err"] or "data", c["last_err_at"]), brief(i))
+        bad = bad or ctx.cov["oracle_failures"] > n0
+    return bad
+
+
+def gcc(s):
+    return gbytes(s.encode())
+
+
+def snap_term(sn):
+    def ent(e):
+        return "(%s, %s, %s)" % (gN(e["asn"]), gcc(e["cc"]), glist(e["c"] or [], gZ))
+    return "(%s, %s, %s, %s)" % (glist(sn["v4"], gZ), glist(sn["v6"], gZ), glist(sn["map4"], ent), glist(sn["map6"], ent))
+
+
+ANSWER = {"again": 0, "not": 1, "found": 2}
+ERRK = {"timeout": 0, "eof": 1, "closed": 1, "rst": 2}
+
+
+def hist_term(h, hr, ts):
+    evs = []
+    exact = not h["hammer"] and not hr["hung"]
+    for e in hr["events"]:
+        if e["ev"] == "open":
+            evs.append("ROpen %s %s %s %s %s %s" % (gN(e["conn"]), gN(e["asn"]), gcc(e["cc"]), gbool(e["v4"]), gN(e["tracked"]), gN(e["nts"])))
+        elif e["ev"] == "read":
+            calls = glist(e.get("calls") or [], lambda cl: "(%s, %s)" % (gN(ts.index(cl["t"])), gN(ANSWER.get(cl["res"], 3))))
+            evs.append("RRead %s %s %s" % (gN(e["conn"]), gN(e["n"]), calls))
+        elif e["ev"] == "err":
+            evs.append("RErr %s %s" % (gN(e["conn"]), gN(ERRK.get(e["kind"], 3))))
+        elif e["ev"] == "epoch" and e.get("snap"):
+            if not e.get("quiesced"):
+                exact = False
+            evs.append("REpoch %s" % snap_term(e["snap"]))
+    if any(c.get("panic") for c in hr["conns"]):
+        exact = exact   # a recovered panic leaves the counters half updated: the comparison is expected to fail, the oracle has the case
+    return "(Build_hist_case %s %s %s)" % (glist(evs, lambda x: "(%s)" % x), snap_term(hr["final"]), gbool(exact))
+
+
+HHEADER = "From CJ Require Import Common.Base C03.StatsModel C03.ConnModel C03.Run.\n"
+
 
 
 def run(ctx):
@@ -334,12 +641,24 @@ def run(ctx):
     c04.table_obligation(ctx, table, res["obfs4"], props="C03.Props", inst="C03_no_tag_no_reaction reveal mark hs dumped")
     lap("table dump + obligation")
     batches = 1 if ctx.tier == "quick" or ctx.replay else 3
+    # the history lane runs in its own test process next to the probe batches (both last ~10-13 s)
+    hists = gen_hists(ctx, 1 if ctx.tier == "quick" else 2)
+    hbox = {}
+
+    def run_hists():
+        if hists:
+            hbox["res"] = ctx.go_inpkg(c04.MOD, ".", FILES, "^TestVerifC03Hist$", hists, extra_overlay=c04.EXTRA, timeout=300)
+    hthread = threading.Thread(target=run_hists)
+    hthread.start()
     allc, allr = [], []
     for b in range(batches):
         cases = gen_cases(ctx, table, 1 if ctx.tier == "quick" else 2)
+        if ctx.replay and not cases:
+            break
         rc, out, res = ctx.go_inpkg(c04.MOD, ".", FILES, "^TestVerifC03$", cases, extra_overlay=c04.EXTRA, timeout=300)
         if not res or len(res.get("results", [])) != len(cases):
             ctx.broken("driver", "Go driver did not produce results: " + out[-1500:])
+            hthread.join()
             return
         allc += cases
         allr += res["results"]
@@ -351,9 +670,11 @@ def run(ctx):
             ctx.broken("driver", "probe could not be built: %s" % r["err"], {"case": c})
             continue
         c04.scope_checks(ctx, r)
+        pk = "peer:" + ("nonip" if c.get("peer") == "-" else ("v6" if peer_is_v6(c.get("peer") or "") else "v4")) + "/" + (c.get("peer_form") or "tcp")
+        ctx.cov["histogram"][pk] = ctx.cov["histogram"].get(pk, 0) + 1
         tagged = presents_tag(r, table)
-        judged = tagged is None
-        if judged == c["kind"].startswith("validtag"):
+        judged = tagged is None and c["kind"] != "nonip"
+        if (tagged is None) == c["kind"].startswith("validtag"):
             # generator self-test: the probe classes are what they claim to be
             ctx.broken("generator-selftest", "probe of kind %s %s a valid tag (%s)" % (c["kind"], "carries" if tagged else "does not carry", tagged),
                        {"case": c, "parts": r.get("parts")})
@@ -361,23 +682,60 @@ def run(ctx):
         if judged:
             judge(ctx, c, r, Ds)
         bad = ctx.cov["oracle_failures"] > before
-        ctx.count((c["kind"], c.get("regs_name"), tuple(map(tuple, r.get("script") or [])), str(r.get("parts"))[:200]),
+        ctx.count((c["kind"], c.get("regs_name"), c.get("peer_form"), c.get("peer"), tuple(map(tuple, r.get("script") or [])), str(r.get("parts"))[:200]),
                   nontrivial=r.get("returned", -1) >= 0, kind="%s/%s" % (c["kind"], "bad" if bad else "ok"))
+        if judged and peer_is_v6(c.get("peer") or ""):
+            k6 = "%s@peer-v6" % c["kind"]
+            ctx.cov["histogram"][k6] = ctx.cov["histogram"].get(k6, 0) + 1
         ctx.cov["histogram"]["regs:" + c.get("regs_name", "?")] = ctx.cov["histogram"].get("regs:" + c.get("regs_name", "?"), 0) + 1
         terms.append(probe_term(r, c))
         idx.append(i)
+    # ---- history lane: oracle
+    hthread.join()
+    hterms, hidx, hres, hts = [], [], [], []
+    if hists:
+        rc, out, res = hbox.get("res") or (1, "", None)
+        if not res or len(res.get("results", [])) != len(hists):
+            ctx.broken("driver", "history driver did not produce results: " + (out or "")[-1500:])
+        else:
+            hres, hts = res["results"], res["ts"]
+            ctx.cov["history_lane"] = {"histories": len(hists), "connections": sum(len(h["conns"]) for h in hists),
+                                       "epochs": sum(x["resets"] for x in hres), "ipv6_loopback": res.get("v6ok")}
+            for i, (h, hr) in enumerate(zip(hists, hres)):
+                bad = judge_hist(ctx, h, hr, Ds)
+                for sname in hist_situations(h, hr):
+                    ctx.cov["histogram"][sname] = ctx.cov["histogram"].get(sname, 0) + 1
+                for spec, c in zip(h["conns"], hr["conns"]):
+                    fam = "hist-peer:" + ("v6" if peer_is_v6(c.get("remote_ip") or "") else "v4") + ("/real" if not spec.get("peer") else "/" + spec.get("peer_form", "tcp"))
+                    ctx.cov["histogram"][fam] = ctx.cov["histogram"].get(fam, 0) + 1
+                    ctx.count(("hist", h["class"], spec["kind"], spec["cc"], spec["asn"], spec["phantom"], c.get("remote_ip"), tuple(h["epochs"])),
+                              nontrivial=c.get("returned", -1) >= 0 or bool(c.get("panic")), kind="hist-conn/%s/%s" % (spec["kind"], "bad" if bad else "ok"))
+                ctx.cov["histogram"]["hist:%s/%s" % (h["class"], "bad" if bad else "ok")] = ctx.cov["histogram"].get("hist:%s/%s" % (h["class"], "bad" if bad else "ok"), 0) + 1
+                hterms.append(hist_term(h, hr, hts))
+                hidx.append(i)
+            ctx.sample({"history": hists[0]["class"], "conns": [{k: c.get(k) for k in ("remote", "set_deadline", "returned", "peer_got", "peer_closed", "peer_kind", "last_err")}
+                                                                for c in hres[0]["conns"]], "final": hres[0]["final"]})
     if len(Ds) >= 8:
         if len(set(round(d) for d in Ds)) < 2 or max(Ds) - min(Ds) < 100:
             ctx.fail("deadline-not-randomised", "the classification deadline is the same (%.0f ms) on %d connections" % (Ds[0], len(Ds)),
                      {"deadlines_ms": sorted(set(round(d) for d in Ds))[:10]})
         ctx.cov["deadlines_ms"] = {"min": min(Ds), "max": max(Ds), "distinct": len(set(round(d) for d in Ds))}
-    for i in (0, len(allc) // 2, len(allc) - 1):
+    for i in ((0, len(allc) // 2, len(allc) - 1) if allc else ()):
         r = allr[i]
         ctx.sample({"kind": allc[i]["kind"], "regs": allc[i].get("regs_name"), "script": r.get("script"),
                     "observed": {k: r.get(k) for k in ("set_deadline", "writes", "closes", "returned", "max_lag", "unread")}})
     if not ctx.replay:
         ctx.require_kinds(["random/ok", "lookalike/ok", "static/ok", "flip/ok", "short/ok", "unregistered/ok", "unvalidated/ok", "loworder/ok", "manychunks/ok",
-                           "phantom:v4", "phantom:v6", "drain/ok", "late/ok", "peerclose/ok", "validtag-wrongprefix/ok", "validtag-wrongtransport/ok", "validtag-obfs4-badmac/ok"] + ["regs:" + n for n in REGS])
+                           "phantom:v4", "phantom:v6", "drain/ok", "late/ok", "peerclose/ok", "validtag-wrongprefix/ok", "validtag-wrongtransport/ok", "validtag-obfs4-badmac/ok"] + ["regs:" + n for n in REGS]
+                          # the peer-address dimension, crossed with the probe classes
+                          + ["nonip/ok", "peer:v4/tcp", "peer:v4/tcp4", "peer:v6/tcp", "peer:v6/udp", "peer:v6/str", "peer:v4/str", "peer:v4/udp", "peer:nonip/str"]
+                          + [k + "@peer-v6" for k in ("random", "lookalike", "static", "flip", "short", "unregistered", "unvalidated", "loworder", "manychunks", "drain", "late", "peerclose")]
+                          # the history lane: every way a connection ends, with an epoch between its previous step and its end
+                          + ["hist:%s-across-epoch/ok" % k for k in HKINDS] + ["hist:no-epoch/ok", "hist:mix/ok", "hist:hammer/ok"]
+                          + ["hist-peer:v4/real", "hist-peer:v6/tcp", "hist-peer:v4/tcp4"]
+                          + ["sit:eof/0B/cc@epoch", "sit:timeout/0B/cc@epoch", "sit:rst/0B/cc@epoch", "sit:eof/data/cc@epoch", "sit:rst/data/cc@epoch",
+                             "sit:timeout/data/cc@epoch", "sit:eof/noregs/cc@epoch", "sit:timeout/noregs/cc@epoch", "sit:timeout/drained/cc@epoch",
+                             "sit:eof/drained/cc@epoch", "sit:first-read/cc@epoch", "sit:eof/0B/cc", "sit:timeout/0B/nocc@epoch"])
     lap("oracle + emit")
     mm = c04.coq_mismatches_retry(ctx, "probe", header(table), terms, "chk'", max(20, len(terms) // 16 + 1), ["C03/Run.vo"])
     lap("coq evaluation of %d probes" % len(terms))
@@ -386,4 +744,14 @@ def run(ctx):
         i = idx[mm[0]]
         ctx.broken("correspondence", "handler model (coq/C04 + coq/C03) and the implementation disagree on %d probe(s); first: %s / %s"
                    % (len(mm), allc[i]["kind"], allc[i].get("regs_name")),
-                   {"case": allc[i], "observed": {k: allr[i].get(k) for k in ("script", "set_deadline", "reads", "calls", "returned", "unread")}})
+                   {"case": allc[i], "observed": {k: allr[i].get(k) for k in ("script", "set_deadline", "reads", "calls", "returned", "unread", "remote")}})
+    if hterms:
+        hm = c04.coq_mismatches_retry(ctx, "hist", HHEADER, hterms, "chk_hist", max(8, len(hterms) // 8 + 1), ["C03/Run.vo"])
+        lap("coq evaluation of %d histories" % len(hterms))
+        if hm:
+            ctx.cov["mismatches"] += len(hm)
+            i = hidx[hm[0]]
+            ctx.broken("correspondence", "connStats state machine (coq/C03/StatsModel.v) and the implementation disagree on %d histor%s; first: %s"
+                       % (len(hm), "y" if len(hm) == 1 else "ies", hists[i]["class"]),
+                       {"hist": hists[i], "events": [{k: v for k, v in e.items() if k in ("ev", "conn", "n", "kind", "calls", "snap", "quiesced") and v not in (None, "")}
+                                                     for e in hres[i]["events"]][:80], "final": hres[i]["final"]})
